@@ -111,7 +111,10 @@ class MInt(MVal):
         self.kind, self.v = kind, int(v)
 
     def token(self):
-        return {"uint64": "u64:%d", "int32": "i32:%d"}[self.kind] % self.v
+        fmt = {"uint64": "u64:%d", "int32": "i32:%d"}.get(self.kind)
+        if fmt is None:
+            raise InterpreterLimit("no gateway token for a %s value" % self.kind)
+        return fmt % self.v
 
     def __repr__(self):
         return "%s(%d)" % (self.kind, self.v)
